@@ -171,6 +171,10 @@ Definition c04_step (g : config) (s : ost) (o : op) (x : obs) : sv :=
           then sv_of false 100 else sv_triv
       | None => sv_triv
       end
+  | OHdr 11 addr _ dst, XBytes hb =>
+      (* generate_smbus_header on a context of address addr, destination dst *)
+      if (addr <? 256) && (dst <? 256)
+      then sv_of (list_eqb hb [(dst mod 128) * 2; 15; 0; (addr mod 128) * 2 + 1]) 300 else sv_triv
   | _, _ => sv_triv
   end.
 (* oversize: a message that does not fit the frame must be refused, never encoded with a truncated count *)
@@ -201,6 +205,9 @@ Definition c05_step (g : config) (s : ost) (o : op) (x : obs) : sv :=
           sv_of (list_eqb (sub out 4 5) [1; enc_dest h id a; g_addr g; 200; mt] && (mt <? 128)) id
       | None => sv_triv            (* documented-invalid arguments: C16's business *)
       end
+  | OHdr 10 addr _ dst, XBytes hb =>
+      (* generate_transport_header on a context of address addr, destination dst *)
+      if (addr <? 256) && (dst <? 256) then sv_of (list_eqb hb [1; dst; addr; 200]) 300 else sv_triv
   | _, _ => sv_triv
   end.
 
